@@ -3993,7 +3993,14 @@ fn parse_sequence_keys(exprs: &[SExpr], s: &ParserState) -> Result<Vec<u16>> {
                                     // press->press: current press is mod
                                     mods_currently_held.push(*pressed);
                                 }
-                                let mut seq_num = u16::from(OsCode::from(pressed));
+                                // The keys typed while a sequence is active are compared with the right
+                                // shift, ctrl and meta keys turned into the left ones.
+                                let mut seq_num = u16::from(match OsCode::from(pressed) {
+                                    OsCode::KEY_RIGHTSHIFT => OsCode::KEY_LEFTSHIFT,
+                                    OsCode::KEY_RIGHTMETA => OsCode::KEY_LEFTMETA,
+                                    OsCode::KEY_RIGHTCTRL => OsCode::KEY_LEFTCTRL,
+                                    osc => osc,
+                                });
                                 for modk in mods_currently_held.iter().copied() {
                                     seq_num |= mod_mask_for_keycode(modk);
                                 }
